@@ -7,13 +7,15 @@
 # The registered checks never use this; it is a development aid.
 set -u
 S=$(readlink -f "$1"); P=${2:-$(basename "$S" | cut -d- -f1)}; TIER=${3:-quick}; V=${4:-/verif}
+# (a directory without patch.diff = the unchanged tree)
 X=${LANE:-0}; W=/tmp/preview-wt$X; H=/tmp/preview-harness$X; T=/tmp/preview-target$X
 export CARGO_NET_OFFLINE=true
 if [ ! -d $W ]; then git -C /repo worktree add --detach $W >/dev/null 2>&1; fi
 git -C $W checkout -q -- . && git -C $W clean -fdq src
-git -C $W apply "$S/patch.diff" || { echo "patch does not apply"; exit 2; }
+if [ -f "$S/patch.diff" ]; then git -C $W apply "$S/patch.diff" || { echo "patch does not apply"; exit 2; }; else echo "(no patch: unchanged tree)"; fi
 rm -rf $H; mkdir -p $H; cp -r $V/harness/src $V/harness/Cargo.toml $H/; cp /repo/Cargo.lock $H/
 sed -i "s#path = \"/repo\"#path = \"$W\"#" $H/Cargo.toml
+sed -i "s#\"/repo/#\"$W/#g" $H/src/engines/cli.rs
 (cd $H && cargo build --release --offline --target-dir $T/h 2>&1 | grep -E "^error|warning: unused" -A5 | head -20)
 (cd $W && cargo build --offline --bin xt --target-dir $T/x 2>&1 | grep -E "^error" -A5; cargo build --release --offline --bin xt --target-dir $T/x 2>&1 | grep -E "^error" -A5)
 OUT=/tmp/preview-out$X; rm -rf $OUT; mkdir -p $OUT
